@@ -12,10 +12,21 @@
      when the oracle is crash-free, choice masters list their alternatives and sources are parsed documents
      (master_ok / srcs_ok are evaluated on every well-formed case of the stream); fetch is structurally
      recursive, so every call returns.
-   PARTIAL: converters / extract / the argument interpreter's own logic are covered by the
-   correspondence streams (outcome classes compared on token soup, mutated documents and value texts). *)
+   - typed values (model, Proofs/ConvTotal.v): for every numeric/bool converter with ANY constructor
+     arguments (bounds may be inf / nan / huge), every non-empty word list and every total eval oracle,
+     from_words ends in a value or a user error; the internal errors it can end in at all are exactly
+     characterised (empty word list, missing oracle answer, an oracle float with > 4300 integer digits);
+     likewise as_words on values of the right Python type;
+   - extraction (model, Proofs/ExtractTotal.v): scope.extract ends in a value or a user error on every tree
+     satisfying extract_wf (evaluated on every fetch result of the streams); its possible internal errors are
+     characterised without hypothesis (IndexError/AssertionError for empty word lists or ill-formed joins,
+     AttributeError for a join of unlike kinds - the recorded finding C16-join-disabled is the one way to
+     reach it from a parsed document).
+   PARTIAL: the argument interpreter's own logic and validate() are covered by the correspondence
+   streams (outcome classes compared on token soup, mutated documents and value texts). *)
 From Coq Require Import List Ascii String.
 From Phil Require Import Base Tokenizer Tree Parser LexProofs ParserTotal Vars Choice Fetch FetchTotal.
+From Phil Require Conv ConvTotal PyVal Extract ExtractTotal.
 
 Theorem C16_tokenize_no_crash : forall σ s c, tokenize σ s <> Crash c.
 Proof. exact tokenize_no_crash. Qed.
@@ -49,3 +60,31 @@ Theorem C16_fetch_crash_kinds : forall env canon diff m srcs c,
   fetch env canon diff m srcs = Crash c -> fetch_crash canon c.
 Proof. exact fetch_crash_kinds. Qed.
 Print Assumptions C16_fetch_crash_kinds.
+
+Theorem C16_from_words_no_crash : forall pyeval t ws,
+  ws <> nil -> ConvTotal.oracle_total pyeval -> ConvTotal.bounds_sane t = true ->
+  ConvTotal.ok_res (Conv.from_words pyeval t ws).
+Proof. exact ConvTotal.from_words_total. Qed.
+Print Assumptions C16_from_words_no_crash.
+
+Theorem C16_from_words_crash_kinds : forall pyeval t ws c,
+  Conv.from_words pyeval t ws = Crash c -> ConvTotal.fw_crash pyeval t ws c.
+Proof. exact ConvTotal.from_words_crash_kinds. Qed.
+Print Assumptions C16_from_words_crash_kinds.
+
+Theorem C16_as_words_no_crash : forall fmt10g t v,
+  ConvTotal.typed t v = true -> ConvTotal.fmt_total fmt10g -> ConvTotal.value_sane t v = true ->
+  ConvTotal.ok_res (Conv.as_words fmt10g t v).
+Proof. exact ConvTotal.as_words_total. Qed.
+Print Assumptions C16_as_words_no_crash.
+
+Theorem C16_extract_no_crash : forall pe ex,
+  ExtractTotal.oracle_total pe -> forall o, Extract.extract_wf o = true ->
+  ExtractTotal.ok_res (Extract.extract_obj pe ex o).
+Proof. exact ExtractTotal.extract_total. Qed.
+Print Assumptions C16_extract_no_crash.
+
+Theorem C16_extract_crash_kinds : forall pe ex o c,
+  Extract.extract_obj pe ex o = Crash c -> ExtractTotal.extract_crash pe c.
+Proof. exact ExtractTotal.extract_crash_kinds. Qed.
+Print Assumptions C16_extract_crash_kinds.
